@@ -8,7 +8,8 @@ from ..layer_a import Engine, proj_kinds
 from ..runner import canon
 
 MODULE = "Props.C12"
-THEOREMS = ["C12_single_use_delivered_at_most_once", "C12_slot_request", "C12_sequential",
+THEOREMS = ["C12_single_use_delivered_at_most_once", "C12_single_use_value_has_one_owner", "C12_raced_value_is_not_lost",
+            "C12_slot_request", "C12_sequential",
             "C12_repeat_use_never_single_use", "C12_builder_refuses_multi_use_of_non_clone",
             "C12_non_clone_stored_single_use", "C12_nonvacuous"]
 
@@ -26,7 +27,7 @@ RULE = ("four parts. (composite) return types with owned leaves inside Option/Re
 
 # ---------------------------------------------------------------- races
 def race_case(rng, nth, nreq):
-    mid = rng.choice([4, 5, 0])
+    mid = rng.choice([4, 5, 0, 9, 9])      # 9: a composite value, two single-use slots
     form = rng.choice(["some", "some_once", "next", "then", "each", "each_n"])
     if form in ("each", "each_n"):
         # a REPEATABLE value (the stored original is cloned per request): concurrent requests must all be served
@@ -66,7 +67,7 @@ def race_cases(rng, tier, eng):
             out.append(c2)
     for _ in range(80 if tier == "quick" else 800):
         c = race_case(rng, rng.randint(2, 4), rng.randint(1, 2))
-        tot = sum(4 * len(t) for t in c["threads"])
+        tot = sum(5 * len(t) for t in c["threads"])
         c["sched"] = [rng.randrange(len(c["threads"])) for _ in range(rng.randint(0, tot))]
         out.append(c)
     return out
